@@ -74,7 +74,7 @@ def eq_defs(formulas):
     return prod, summ
 
 
-def uf_axioms(apps, max_rounds=3, defs=None, focus=None):
+def uf_axioms(apps, max_rounds=5, defs=None, focus=None):
     """apps: {fname: {id: (args, term)}} -> list of ground axiom instances (z3 Bool terms)"""
     out = []
     dprod, dsum = defs or ({}, {})
